@@ -368,6 +368,9 @@ class MetaFile:
         logger.debug("sorting dictionary keys")
         meta = self.meta
         meta["info"] = dict(sorted(list(meta["info"].items())))
+        if "piece layers" in meta:
+            layers = meta["piece layers"]
+            meta["piece layers"] = dict(sorted(list(layers.items())))
         meta = dict(sorted(list(meta.items())))
         return meta
 
